@@ -45,10 +45,6 @@ structure VSpec where
   hasVals : Bool
   exprTy : Option Name
   vals : List Int
-  /-- the type expression is a plain identifier (`T`) as opposed to `pkg.T` or `(T)`: makeStr only
-      looks at `*ast.Ident` types, any other type expression makes it skip the spec WITHOUT touching
-      the remembered type -/
-  tyIdent : Bool := true
   deriving DecidableEq, Repr
 
 structure Const where
@@ -57,6 +53,10 @@ structure Const where
   deriving DecidableEq, Repr
 
 def underscore : Name := ['_']
+
+/-- the type expression, parentheses removed (`ast.Unparen`), is not an identifier but a qualified
+    `pkg.T`: the spelling carries a dot -/
+def qualified (t : Name) : Bool := t.contains '.'
 
 /-- the inner loop `for _, n := range vspec.Names { if n.Name == "_" { continue } … }` -/
 def namesOf (s : VSpec) : List Const :=
@@ -68,8 +68,8 @@ def collectBlock (T : Name) : Option Name → List VSpec → List Const
   | typ, s :: rest =>
     if s.ty.isNone && s.hasVals then
       collectBlock T none rest                       -- "X = 1": reset the remembered type, skip
-    else if s.ty.isSome && !s.tyIdent then
-      collectBlock T typ rest                        -- "X pkg.T = 1": not an identifier, `continue`
+    else if (match s.ty with | some t => qualified t | none => false) then
+      collectBlock T none rest                       -- "X pkg.T = 1": some other type; remembered type reset, skip
     else
       let typ' := match s.ty with
         | some t => some t                           -- "X T": remember it
@@ -77,8 +77,8 @@ def collectBlock (T : Name) : Option Name → List VSpec → List Const
       if typ' ≠ some T then collectBlock T typ' rest
       else namesOf s ++ collectBlock T typ' rest
 
-/-- all files, all const declarations in source order — `ast.Inspect` also walks into function bodies,
-    so the const declarations inside functions are among them -/
+/-- all files, all PACKAGE-LEVEL const declarations in source order (the walk does not descend into
+    FuncDecl / FuncLit: const declarations inside function bodies are not seen) -/
 def collect (T : Name) (blocks : List (List VSpec)) : List Const :=
   blocks.flatMap (collectBlock T none)
 
@@ -232,7 +232,7 @@ def unmarshalText (vm : List (Name × Int)) (s : Name) (target : Int) : Dec := p
 def scan (vm : List (Name × Int)) (d : SqlIn) (target : Int) : Dec :=
   match d with
   | .other => (some .badType, target)
-  | .str _ => (some .badType, target)       -- `data, ok := value.([]byte); if !ok { return errors.New("bad enum type") }`
+  | .str s => parseInto vm s target         -- `case string: data = []byte(v_)`
   | .bytes s => parseInto vm s target
 
 /-- what the three encoders put on the wire: the text of `String()` (as a JSON string, as bytes,
